@@ -14,7 +14,8 @@
 (*   t.post    unmasked Get immediately after the step  [ok, v]           *)
 (*   t.code    status of the step's RPC ("OK", an error code, "PANIC")    *)
 (*   t.resp    the response message (Update, Get)                         *)
-(*   t.mask    read mask (Get) / update mask (Update): [nil, paths]       *)
+(*   t.mask    read mask (Get) / update mask (Update): [nil, paths, nested] *)
+(*   t.sub     see Project                                                *)
 (*   t.streams the Pull streams open during the step, each with what was  *)
 (*             read from it during the step (see StackTrace / StackMC)    *)
 (*                                                                         *)
@@ -28,10 +29,15 @@ EXTENDS Integers, Sequences, FiniteSets
 
 Range(s) == { s[i] : i \in 1..Len(s) }
 
-\* Get(mask) = Project(Get(), mask): absent mask = everything, empty mask = nothing
-Project(v, mask) ==
+\* Get(mask) = Project(Get(), mask): absent mask = everything, empty mask = nothing.
+\* mask.paths lists the top-level fields selected whole; mask.nested the top-level fields of which the
+\* mask selects sub-fields only ("states.direction"): what remains of such a field is not computable from
+\* its number, so the observation carries it: sub[i] is the number of (field i of the unmasked Get
+\* restricted to the selected sub-fields), computed by the harness' own projection (abs.go), 0 if absent.
+Project(v, mask, sub) ==
   IF mask.nil THEN v
-  ELSE [ i \in 1..Len(v) |-> IF i \in Range(mask.paths) THEN v[i] ELSE 0 ]
+  ELSE [ i \in 1..Len(v) |-> IF i \in Range(mask.paths) THEN v[i]
+                              ELSE IF i \in Range(mask.nested) THEN sub[i] ELSE 0 ]
 
 If(b, name) == IF b THEN {} ELSE {name}
 
@@ -52,10 +58,16 @@ StreamFailsOnUpdate(t, s) ==
     \* ... carrying the name given in the Pull request (every change read while waiting for this
     \* update stems from an Update - the initial value was consumed when the stream was opened)
     \cup If(\A k \in 1..Len(s.msgs) : s.msgs[k].name = s.name, "stream-change-name")
-    \* "unless updates-only": nothing was read from this updates-only stream yet and no Update
-    \* succeeded since it was opened, so its first change stems from this Update; if it carries the
-    \* value from before the Update, the stream started with the current value
-    \cup If(~(s.uo /\ s.fresh /\ s.quiet /\ s.msgs # <<>> /\ s.msgs[1].v = t.pre.v),
+    \* "unless updates-only": the first change ever read from an updates-only stream must stem from an
+    \* Update made after the stream was opened, not be the value that was current when it was opened.
+    \* A change says when it happened (change_time): one dated before the open is the initial value.
+    \* Where a server does not date its changes (ct = "none") the first change carrying the value from
+    \* before this Update, with no successful Update since the open, is taken for it.  (An aggregate
+    \* resource may legitimately emit a dated intermediate change equal to the old value while it applies
+    \* a multi-part Update; that is not asserted against.)
+    \cup If(~(s.uo /\ s.fresh /\ s.msgs # <<>>
+              /\ (s.msgs[1].ct = "before-open"
+                  \/ (s.msgs[1].ct = "none" /\ s.quiet /\ s.msgs[1].v = t.pre.v))),
             "updates-only-stream-started-with-current-value")
     \* a Pull that is not updates-only from which nothing could be read when it was opened (see
     \* OpenFails): the first change it ever delivers must still be the value current at the open
@@ -73,11 +85,17 @@ UpdateFails(t) ==
 
 (***************************************************************************)
 (* Get with a read mask.  Not asserted when the unmasked Get itself fails. *)
+(* One coherent register: only an Update moves it, so the unmasked Get      *)
+(* after a step that is not an Update equals the one before it (and, by     *)
+(* update-response-is-not-next-get, the last successful Update's response). *)
 (***************************************************************************)
+ReadOnlyFails(t) == IF t.pre.ok THEN If(t.post.ok /\ t.post.v = t.pre.v, "read-changed-register") ELSE {}
+
 GetFails(t) ==
   If(t.code # "PANIC", "panic")
-  \cup (IF t.code = "OK" /\ t.pre.ok THEN If(t.resp = Project(t.pre.v, t.mask), "get-mask-is-not-projection") ELSE {})
+  \cup (IF t.code = "OK" /\ t.pre.ok THEN If(t.resp = Project(t.pre.v, t.mask, t.sub), "get-mask-is-not-projection") ELSE {})
   \cup (IF t.pre.ok THEN If(t.code = "OK", "masked-get-failed") ELSE {})
+  \cup ReadOnlyFails(t)
 
 (***************************************************************************)
 (* A new Pull starts with the current value unless updates-only.  The     *)
@@ -99,8 +117,8 @@ OpenFails(t) ==
 Fails(t) ==
   CASE t.op = "Update"      -> UpdateFails(t)
     [] t.op = "Get"         -> GetFails(t)
-    [] t.op = "OpenPull"    -> OpenFails(t)
-    [] t.op = "CloseStream" -> {}
+    [] t.op = "OpenPull"    -> OpenFails(t) \cup ReadOnlyFails(t)
+    [] t.op = "CloseStream" -> ReadOnlyFails(t)
     [] OTHER                -> {"unknown-op"}
 
 \* clauses that are not a verdict by themselves (see OpenFails)
